@@ -163,6 +163,21 @@ func runC15(r *hk.Run) {
 		}
 	}
 
+	// A1d. the response status and a Location header say nothing about the text (transport level)
+	if gbk := specByName("gbk"); gbk != nil {
+		for i, st := range []int{301, 302, 303, 307, 308, 300, 201, 404, 500} {
+			d, _ := makeDoc(hk.NewRand(uint64(40+i)), []site{siteHeader, siteMeta}[i%2], gbk, 120)
+			loc := ""
+			if st/100 == 3 || i%3 == 0 {
+				loc = "https://example.com/elsewhere"
+			}
+			for _, ch := range [][][]byte{{d.Body}, splitAt(d.Body, []int{d.TextStart + 3})} {
+				u := &unitCase{Kind: "unit", Doc: d, Set: defaultSet, Chunks: ch, EOFLast: i%2 == 0, Pattern: []int{512}, BufMode: "zero", FailAt: -1, Status: st, Location: loc}
+				w.eval(u, true)
+			}
+		}
+	}
+
 	// A2. selection is by case-sensitive substring on the whole Content-Type value: spellings outside
 	// the configured selection must be left alone, whatever they declare
 	for i, ct := range []string{"TEXT/HTML", "Text/Html; charset=gbk", "APPLICATION/JSON; charset=gbk", "TEXT/PLAIN; charset=big5", "application/octet-stream; charset=gbk", "image/svg; charset=gbk"} {
